@@ -80,6 +80,16 @@ Additions for stateful callees (retrospective wrappers / smoothers; all fail clo
                body / `continue` = true.  Running out of fuel is NOT a Python behaviour (Err 97): linking theorems are stated
                for sufficient fuel.  Any other loop test, while/else, `return` inside are refused.
   `break` in a `for` loop (default monad only): PyRt.res_fold_brk, the body answers (go on?, state) like a while body.
+Additions for data.py (ScreenSubset / Plate / the view-producing methods of Screen):
+  cfg["overload"] = True   several prims may share one pattern and differ in their declared hole types (numpy's `a[mask]`,
+                      `a.copy()` on arrays of different element types): a prim whose pattern matches but whose hole types do
+                      not fit the arguments is skipped and the next one is tried; when a pattern matched and NO prim fits,
+                      the expression is refused (it never falls through to the structural translation)
+  [f(x) for x in L]   where f may raise and there is no condition that may raise: res_map_all (Lib/Sexp.v), f evaluated
+                      element by element from the left, the first exception aborts
+  cfg["inherits"]     [(subclass, base, [method names])]: checked, not translated - the class `subclass` has the single
+                      base `base` and defines none of the named methods itself, so that calling them on (constructing) a
+                      `subclass` runs the translated methods of `base`; anything else is refused
 """
 import ast
 
@@ -229,18 +239,29 @@ class Tr:
 
     # ---- expressions: returns (term, type); appends checked unwraps to hoist [(name, term)]
     def expr(self, e, env, hoist, want=None):
+        misfit = None      # cfg["overload"]: the refusal of the last prim whose pattern matched but whose hole types did not fit
         for pat, tmpl, ty, argtys in self.prims:
             binds = {}
             if self.unify(pat, e, binds):
                 args = {}
-                for k, v in binds.items():
-                    a, at = self.expr(v, env, hoist)
-                    args[k[2:]] = self.need(a, at, argtys[k[2:]], hoist) if k[2:] in argtys else a
+                mark = len(hoist)
+                try:
+                    for k, v in binds.items():
+                        a, at = self.expr(v, env, hoist)
+                        args[k[2:]] = self.need(a, at, argtys[k[2:]], hoist) if k[2:] in argtys else a
+                except Unsupported as ex:
+                    if not self.cfg.get("overload"):
+                        raise
+                    del hoist[mark:]
+                    misfit = ex
+                    continue
                 if tmpl.startswith("!"):     # a primitive that may raise: the template denotes a `result T`
                     n = self.new("r")
                     hoist.append((n, tmpl[1:].format(**args)))
                     return n, ty
                 return "(" + tmpl.format(**args) + ")", ty
+        if misfit is not None:
+            raise Unsupported("no prim of this pattern fits the argument types: %s (%s)" % (ast.unparse(e), misfit))
         if isinstance(e, ast.Call) and isinstance(e.func, ast.Name) and e.func.id.startswith("STMTPRIM:"):
             _, _, tmpl, ty, argtys = self.stmt_prims[int(e.func.id[len("STMTPRIM:"):])]
             for kw in e.keywords:
@@ -325,8 +346,15 @@ class Tr:
             if isinstance(e.elt, ast.Name) and e.elt.id == x:
                 out = src, lt
             else:
+                pure_conds = not inner and (bool(conds) or not g.ifs)     # no condition may raise (none was turned into a res_filter)
                 f, ft = self.expr(e.elt, env2, inner)
                 out = "(map (fun %s => %s) %s)" % (x, f, src), ("list", ft)
+                if inner and pure_conds and self.M["type"] == "result":
+                    # an element that may raise: evaluated element by element from the left (Lib/Sexp.res_map_all)
+                    n = self.new("l")
+                    body = "".join("dor %s <- %s; " % nt for nt in inner) + "Ok " + f
+                    hoist.append((n, "res_map_all (fun %s => %s) %s" % (x, body, src)))
+                    out, inner = (n, ("list", ft)), []
             if inner:
                 raise Unsupported("comprehension element / condition that may raise: " + ast.unparse(e))
             return out
@@ -1180,10 +1208,20 @@ class YieldToAppend(ast.NodeTransformer):
                             args=[node.value.value], keywords=[])
             return ast.copy_location(ast.Expr(value=call), node)
         return node
+def check_inherits(tree, cfg):
+    """cfg["inherits"] = [(subclass, base, [method names])]: the subclass has that single base and defines none of the methods"""
+    for sub, base, names in cfg.get("inherits", []):
+        cls = [n for n in ast.walk(tree) if isinstance(n, ast.ClassDef) and n.name == sub]
+        if len(cls) != 1 or [ast.unparse(b) for b in cls[0].bases] != [base] or cls[0].keywords:
+            raise Unsupported("class %s is not a plain subclass of %s" % (sub, base))
+        own = [n.name for n in cls[0].body if isinstance(n, ast.FunctionDef) and n.name in names]
+        if own:
+            raise Unsupported("class %s defines its own %s" % (sub, ", ".join(own)))
 
 
 def translate(source_text, cfg):
     tree = ast.parse(source_text)
+    check_inherits(tree, cfg)
     f = find_function(tree, cfg["func"], cfg.get("cls"))
     if cfg.get("generator"):
         if any(isinstance(n, (ast.YieldFrom, ast.Return)) for n in ast.walk(f)):
